@@ -29,7 +29,9 @@ enum Shape {
     PosAppend,
 }
 const SHAPES: [Shape; 8] = [Shape::SetOpt, Shape::AppendOpt, Shape::AppendOpt0, Shape::Count, Shape::SetTrue, Shape::SetFalse, Shape::PosSet, Shape::PosAppend];
-const SELF_MODES: [&str; 3] = ["none", "args_override_self", "overrides_with_self"];
+/// `args_override_self_on_parent`: the setting is made on the root only (documented to reach every
+/// child) and x, y, z live in a subcommand; every line starts with `sub`
+const SELF_MODES: [&str; 4] = ["none", "args_override_self", "overrides_with_self", "args_override_self_on_parent"];
 /// (from, to) override edges
 const RELS: [&[(&str, &str)]; 8] = [
     &[],
@@ -78,6 +80,15 @@ fn build_spec(shape: Shape, self_mode: &str, rel: &[(&str, &str)]) -> CmdSpec {
             "y" => y.overrides.push(t.to_string()),
             _ => z.overrides.push(t.to_string()),
         }
+    }
+    if self_mode == "args_override_self_on_parent" {
+        c.set(Setting::ArgsOverrideSelf);
+        let mut s = CmdSpec::new("sub");
+        s.args.push(x);
+        s.args.push(y);
+        s.args.push(z);
+        c.subs.push(s);
+        return c;
     }
     c.args.push(x);
     c.args.push(y);
@@ -215,8 +226,24 @@ fn read_x(m: &ArgMatches, shape: Shape) -> (Vec<Vec<String>>, String) {
 }
 
 fn judge(spec: &CmdSpec, cmd: &clap::Command, shape: Shape, seq: &[Tok], argv: &[Vec<u8>], h: &mut Hist) -> Vec<(String, String)> {
+    // nested mode: the arguments live in `sub`, the root's setting applies there as well
+    let nested = !spec.subs.is_empty();
+    let level_spec: CmdSpec = if nested {
+        let mut s = spec.subs[0].clone();
+        s.set(Setting::ArgsOverrideSelf);
+        s
+    } else {
+        spec.clone()
+    };
+    let spec = &level_spec;
+    let mut line: Vec<Vec<u8>> = vec![];
+    if nested {
+        line.push(b"sub".to_vec());
+    }
+    line.extend(argv.iter().cloned());
+    let argv = &line[..];
     let want = fold(spec, shape, seq);
-    let got = cmd.clone().try_get_matches_from(argv_os("prog", argv));
+    let got = cmd.clone().try_get_matches_from(argv_os("prog", argv)).map(|m| if nested { m.subcommand_matches("sub").cloned().unwrap_or(m) } else { m });
     let mut bad = vec![];
     match (want, got) {
         (Err(why), Ok(m)) => {
